@@ -67,6 +67,14 @@ CLAIMED = {
          "Three structural necessary conditions: a forged tag cannot pass through a narrow or unchecked comparison and a mismatch yields (nil, error); Seal/Open work on private copies so overlapping caller buffers are not corrupted; the byte-granular state writers preserve the rest of the lane so every key byte reaches the mask. Conformance with the Kravatte-SANSE specification for all keys and lengths is numerical and not decided.",
          "Trusts go/ssa. Nothing is claimed about keccakF1600, rollC/rollE or Vatte/Kra arithmetic.",
          "DESIGN.md §3 C12"),
+ "C16": ("lock-discipline analysis driven by the repository's own +checklocks annotations (must-held locksets, guarded-by, annotated-callee obligations), lock-order graph with callee summaries and cycle detection, recognition of close-election idioms (won CAS/Swap, state test + assignment under the object's lock, probed channel under a lock, once-per-object goroutine with per-path counting), dominance of queue sends by the closed flag or a not-closed tube state under the tube lock, ordered-event path analysis of Muxer.Stop / enterClosedState / Reliable.Write, arm/start pairing of the send goroutine",
+         "Structural conditions whose violation makes some schedule deadlock, panic or leak: acyclic lock order over tubes+common; every annotated field accessed under its lock; every close of a field channel elected; no send on a sender queue that may be closed; tube closes before the stopping state, queues closed after all tubes finished, transport closed before forcing; the tube is marked closed before its sender queues close and r.l is released while waiting for the send goroutine; writes only in writable states; the sender is armed only together with its goroutine.",
+         "Termination within a bound for all interleavings and loss patterns is not decided. The annotation semantics are re-implemented (gVisor checklocks is not installed); closures start with an empty lockset.",
+         "DESIGN.md §3 C16"),
+ "C17": ("the same lock-discipline analysis over transport+common (with a three-field supplement next to the annotated handleState), lock-order graph, ordered-event path analysis of the election/publication protocols (close of completion channels only by the CAS winner and after the result stores; readers after a receive or the publishing state; wg.Add before go), close-before-wait ordering, ordered steps of DeadlineChan.Recv/Send/Close, write/arm/read typestate of the client handshake",
+         "Structural conditions of race-freedom, idempotent close and release of blocked calls: guarded-by and acyclic lock order; completion channels closed once, by the elected caller, after the results they publish; c.err stored before the state that publishes it; the close owner closes the socket before any blocking wait and non-owners wait on closeDone only; Recv tries buffered data, then the closed flag, then the deadline; Send enqueues only after finding the queue open under its lock; Close sets the flag before cancelling and never closes the data channel; every handshake read is armed with the handshake deadline.",
+         "'No data race for every program' and 'every call returns' are not decided as wholes; the race detector's verdict on schedules is outside static reach.",
+         "DESIGN.md §3 C17"),
 }
 
 NOT_APPLICABLE = {
